@@ -73,6 +73,7 @@ func sessionInvariants(st *state.State, ca *cache.Cache) *Violation {
 func genC08(t *rapid.T) C08Case {
 	o := fullOpts
 	o.InternalSig = true
+	o.PostCroak = true
 	o.ResetEmpty = true
 	o.Sloppy = chancePct(t, 15, "sloppy")
 	a := GenApp(t, o)
